@@ -1,5 +1,6 @@
 //! Shared plumbing: case / failure records, calling the real library with panics caught,
 //! and a small syn-based outline of the generated Rust text.
+#![allow(dead_code)]
 
 use std::sync::mpsc;
 use std::time::Duration;
@@ -342,8 +343,14 @@ pub fn nows(s: &str) -> String {
     s.chars().filter(|c| !c.is_whitespace()).collect()
 }
 
+/// Whitespace-free text with trailing commas before a closing bracket removed (`f(a,)` == `f(a)`),
+/// so that comparisons do not depend on how prettyplease / rustfmt broke the lines.
+pub fn norm(s: &str) -> String {
+    nows(s).replace(",)", ")").replace(",]", "]").replace(",}", "}").replace(",>", ">")
+}
+
 fn toks<T: quote::ToTokens>(t: &T) -> String {
-    nows(&t.to_token_stream().to_string())
+    norm(&t.to_token_stream().to_string())
 }
 
 /// Given `s[open..]` starting with an opening bracket, return the index one past its matching close.
